@@ -68,9 +68,10 @@ def check(repo: Repo, rep: Report) -> None:
     c = repo.fn("reactivex/observable/combinelatest.py", "combine_latest_.subscribe")
     for g, s, k in TC.downstream_sites(c, ("on_next",)):
         gt = TC.guards_text(s)
-        flags = {t.id for n in g.direct_nodes() if isinstance(n, ast.Assign) for t in n.targets if isinstance(t, ast.Name)
+        from ..rules import cell_name as _cell
+        flags = {_cell(t) for n in g.direct_nodes() if isinstance(n, ast.Assign) for t in n.targets if _cell(t)
                  and any(is_call(x, "all") for x in ast.walk(n.value))}
-        ok = any(p and ((isinstance(e, ast.Name) and e.id in flags) or is_call(e, "all")) for e, p in s.ctx.guards)
+        ok = any(p and ((isinstance(e, (ast.Name, ast.Subscript)) and _cell(e) in flags) or is_call(e, "all")) for e, p in s.ctx.guards)
         rep.ob("G1-gating", g, f"combine_latest emits under {gt}", ok, "combine_latest emits before every source has produced a value")
     for g, s, k in TC.downstream_sites(c, ("on_completed",)):
         gt = TC.guards_text(s)
